@@ -51,6 +51,24 @@ type fieldRow struct {
 	B float64
 }
 
+// FieldPrices is embedded by value and by pointer: Field resolves names the way FieldByName does, promoted fields included.
+type FieldPrices struct {
+	Open  float64
+	Close float64
+}
+type fieldRowTail struct { // embedded struct not at offset 0
+	Volume float64
+	FieldPrices
+}
+type fieldRowHead struct { // embedded struct at offset 0
+	FieldPrices
+	Volume float64
+}
+type fieldRowPtr struct { // embedded pointer
+	Volume float64
+	*FieldPrices
+}
+
 func helperCases() []hcase {
 	p07 := []int{0, 1, 2, 3, 4, 5, 6, 7}
 	p17 := []int{1, 2, 3, 4, 5, 6, 7}
@@ -58,13 +76,19 @@ func helperCases() []hcase {
 	id := func(in [][]float64, _ int) [][]float64 { return [][]float64{in[0]} }
 	return []hcase{
 		{name: "Map", arity: 1, params: none, consumes: true,
-			run:   func(in []fch, _ int) []fch { return []fch{helper.Map(in[0], func(x float64) float64 { return x*10 + 1 })} },
-			model: func(in [][]float64, _ int) [][]float64 { return apply1(in[0], func(x float64) float64 { return x*10 + 1 }) }},
+			run: func(in []fch, _ int) []fch {
+				return []fch{helper.Map(in[0], func(x float64) float64 { return x*10 + 1 })}
+			},
+			model: func(in [][]float64, _ int) [][]float64 {
+				return apply1(in[0], func(x float64) float64 { return x*10 + 1 })
+			}},
 		{name: "Apply", arity: 1, params: none, consumes: true,
 			run:   func(in []fch, _ int) []fch { return []fch{helper.Apply(in[0], func(x float64) float64 { return -x })} },
 			model: func(in [][]float64, _ int) [][]float64 { return apply1(in[0], func(x float64) float64 { return -x }) }},
 		{name: "Filter", arity: 1, params: []int{1, 2, 3}, consumes: true,
-			run: func(in []fch, p int) []fch { return []fch{helper.Filter(in[0], func(x float64) bool { return x != float64(p) })} },
+			run: func(in []fch, p int) []fch {
+				return []fch{helper.Filter(in[0], func(x float64) bool { return x != float64(p) })}
+			},
 			model: func(in [][]float64, p int) [][]float64 {
 				o := []float64{}
 				for _, x := range in[0] {
@@ -147,16 +171,28 @@ func helperCases() []hcase {
 				return [][]float64{o}
 			}},
 		{name: "Operate", arity: 2, params: none, consumes: true,
-			run:   func(in []fch, _ int) []fch { return []fch{helper.Operate(in[0], in[1], func(a, b float64) float64 { return a*10 + b })} },
-			model: func(in [][]float64, _ int) [][]float64 { return zip2(in[0], in[1], func(a, b float64) float64 { return a*10 + b }) }},
+			run: func(in []fch, _ int) []fch {
+				return []fch{helper.Operate(in[0], in[1], func(a, b float64) float64 { return a*10 + b })}
+			},
+			model: func(in [][]float64, _ int) [][]float64 {
+				return zip2(in[0], in[1], func(a, b float64) float64 { return a*10 + b })
+			}},
 		{name: "Add", arity: 2, params: none, consumes: true, run: func(in []fch, _ int) []fch { return []fch{helper.Add(in[0], in[1])} },
-			model: func(in [][]float64, _ int) [][]float64 { return zip2(in[0], in[1], func(a, b float64) float64 { return a + b }) }},
+			model: func(in [][]float64, _ int) [][]float64 {
+				return zip2(in[0], in[1], func(a, b float64) float64 { return a + b })
+			}},
 		{name: "Subtract", arity: 2, params: none, consumes: true, run: func(in []fch, _ int) []fch { return []fch{helper.Subtract(in[0], in[1])} },
-			model: func(in [][]float64, _ int) [][]float64 { return zip2(in[0], in[1], func(a, b float64) float64 { return a - b }) }},
+			model: func(in [][]float64, _ int) [][]float64 {
+				return zip2(in[0], in[1], func(a, b float64) float64 { return a - b })
+			}},
 		{name: "Multiply", arity: 2, params: none, consumes: true, run: func(in []fch, _ int) []fch { return []fch{helper.Multiply(in[0], in[1])} },
-			model: func(in [][]float64, _ int) [][]float64 { return zip2(in[0], in[1], func(a, b float64) float64 { return a * b }) }},
+			model: func(in [][]float64, _ int) [][]float64 {
+				return zip2(in[0], in[1], func(a, b float64) float64 { return a * b })
+			}},
 		{name: "Divide", arity: 2, params: none, consumes: true, run: func(in []fch, _ int) []fch { return []fch{helper.Divide(in[0], in[1])} },
-			model: func(in [][]float64, _ int) [][]float64 { return zip2(in[0], in[1], func(a, b float64) float64 { return a / b }) }},
+			model: func(in [][]float64, _ int) [][]float64 {
+				return zip2(in[0], in[1], func(a, b float64) float64 { return a / b })
+			}},
 		{name: "Operate3", arity: 3, params: none, consumes: true,
 			run: func(in []fch, _ int) []fch {
 				return []fch{helper.Operate3(in[0], in[1], in[2], func(a, b, c float64) float64 { return a*100 + b*10 + c })}
@@ -240,16 +276,34 @@ func helperCases() []hcase {
 				}
 				return [][]float64{o}
 			}},
-		{name: "Field", arity: 1, params: none, consumes: true,
-			run: func(in []fch, _ int) []fch {
-				rows := helper.Map(in[0], func(x float64) *fieldRow { return &fieldRow{A: x, B: x + 0.5} })
-				f, err := helper.Field[float64](rows, "B")
-				if err != nil {
-					panic(err)
+		{name: "Field", arity: 1, params: []int{0, 1, 2, 3, 4, 5, 6, 7}, consumes: true, // p selects the row shape and the field
+			run: func(in []fch, p int) []fch {
+				must := func(f <-chan float64, err error) []fch {
+					if err != nil {
+						panic(err)
+					}
+					return []fch{f}
 				}
-				return []fch{f}
+				switch p {
+				case 0:
+					return must(helper.Field[float64](helper.Map(in[0], func(x float64) *fieldRow { return &fieldRow{A: x, B: x + 0.5} }), "B"))
+				case 1:
+					return must(helper.Field[float64](helper.Map(in[0], func(x float64) *fieldRow { return &fieldRow{A: x + 0.5, B: x} }), "A"))
+				case 2, 3:
+					rows := helper.Map(in[0], func(x float64) *fieldRowTail { return &fieldRowTail{x + 100, FieldPrices{x + 0.25, x + 0.5}} })
+					return must(helper.Field[float64](rows, []string{"Close", "Open"}[p-2]))
+				case 4, 5:
+					rows := helper.Map(in[0], func(x float64) *fieldRowHead { return &fieldRowHead{FieldPrices{x + 0.25, x + 0.5}, x + 100} })
+					return must(helper.Field[float64](rows, []string{"Close", "Volume"}[p-4]))
+				default:
+					rows := helper.Map(in[0], func(x float64) *fieldRowPtr { return &fieldRowPtr{x + 100, &FieldPrices{x + 0.25, x + 0.5}} })
+					return must(helper.Field[float64](rows, []string{"Close", "Open"}[p-6]))
+				}
 			},
-			model: func(in [][]float64, _ int) [][]float64 { return apply1(in[0], func(x float64) float64 { return x + 0.5 }) }},
+			model: func(in [][]float64, p int) [][]float64 {
+				add := []float64{0.5, 0.5, 0.5, 0.25, 0.5, 100, 0.5, 0.25}[p]
+				return apply1(in[0], func(x float64) float64 { return x + add })
+			}},
 		{name: "SliceToChan+ChanToSlice", arity: 1, params: none, consumes: true,
 			run: func(in []fch, _ int) []fch {
 				out := make(chan float64)
@@ -272,7 +326,7 @@ func helperCases() []hcase {
 			},
 			model: func(in [][]float64, p int) [][]float64 { return [][]float64{nil} }},
 		{name: "SyncPeriod", arity: 1, params: []int{0, 1, 2, 3}, consumes: true, // common period 3, own period p
-			run: one(func(c fch, p int) fch { return helper.SyncPeriod(3, p, c) }),
+			run:   one(func(c fch, p int) fch { return helper.SyncPeriod(3, p, c) }),
 			model: func(in [][]float64, p int) [][]float64 { return [][]float64{in[0][min(max(0, 3-p), len(in[0])):]} }},
 		{name: "Abs/Sign/KeepPositives/KeepNegatives", arity: 1, params: none, consumes: true,
 			run: func(in []fch, _ int) []fch {
